@@ -68,7 +68,7 @@ P["C13"] = dict(level="exploration", design="DESIGN.md 7.1", assumptions=[
  text="Seeded search over byte-stream fragmentations (release-k-bytes ops: reads ending inside the IV, inside the MAC tag, exactly at the newline; coalesced frames), scripted short reads/writes, EINTR/EAGAIN (incl. the sleep(1) back-off of the polling variant), EOF after an arbitrary prefix, byte flips/insertions/deletions in IV, line and tag, frame drop/dup/swap/replay, across {select,nonblock} x {auth} x {enc} x {chunked} x {single,array} and all three receive schedulers, against a FIFO reference model per link; bounded liveness after all bytes are visible. Both real channel classes run unmodified over simulated descriptors.",
  note="trusted: SimFd as a model of kernel pipes/select, libgcrypt; the oracle is deliberately narrowed for IV-only tampering and chunked mode as the statement allows")
 P["C14"] = dict(level="exploration", design="DESIGN.md 7.2", assumptions=[
-  "links between honest parties are authenticated FIFO streams of integers (what aiounicast provides); the in-memory SimUnicast stands in for aiounicast_select",
+  "links between honest parties are authenticated FIFO streams of integers (what aiounicast provides); the in-memory SimUnicast stands in for aiounicast_select, except in one run of 16 (one of 96 in the sanitizer flavour), where the library's aiounicast_select frames every integer over simulated descriptors and a hand-over makes the bytes of one unit visible (for one receive call possibly only up to an arbitrary byte); there the per-link model of the byte layer is checked as well (class fullstack_channel, property C13)",
   "at most t < n/3 parties are Byzantine; they can send anything on their own links but cannot forge honest links",
   "liveness is judged only in the drain phase (partitions healed, no further injections, every message handed over); runs in which a Byzantine sender triggered a retrieve storm (> 1500 l-retrieve requests) keep their safety checks and are not judged for liveness",
   "a caller uses one of Deliver/DeliverFrom per channel visit; channel names passed to setID are fresh, re-entry uses recoverID",
@@ -98,7 +98,7 @@ P["C11"] = dict(level="exploration", design="DESIGN.md 7.10", assumptions=["scop
  thorough=[leg("dkg","plain",80000,16,32,600,900,["--restartall","1"]), leg("cards","plain",300000,16,64,120,600), leg("qrcards","plain",300000,16,64,120,300)],
  text="Restart monitor inside the multi-party simulations (crash = destroy the protocol object at a phase boundary, only the PublishState text survives, restart = stream constructor; the restored party continues the protocol, e.g. signs with the restored key, and the C15/C16 oracles judge the outcome) plus a wire monitor in the table simulations (every exported object is re-imported into a fresh object, compared with == where the type has it, and re-exported).",
  note="trusted: text comparison; the restored object's behaviour is judged by the C15/C16 oracles of the same run")
-P["C17"] = dict(level="exploration", design="DESIGN.md 7.4", assumptions=["two-party protocol between two tasks; multi-party protocol over the real reliable broadcast with SimUnicast underneath, synchrony as for C15"],
+P["C17"] = dict(level="exploration", design="DESIGN.md 7.4", assumptions=["two-party protocol between two tasks; multi-party protocol over the real reliable broadcast with SimUnicast (or, one run in eight, the library's aiounicast_select over simulated descriptors) underneath, synchrony as for C15; thresholds up to (n-1)/2 with up to t deviating parties, of which at most (n-1)/3 deviate below the broadcast"],
  quick=[leg("flip2","plain",6000,16,32,60), leg("flip2","asan",1500,10,16,60), leg("dkg","plain",1500,16,8,600), leg("dkg","asan",150,10,4,900)],
  thorough=[leg("flip2","plain",400000,16,256,60,600), leg("flip2","asan",40000,10,64,60,300), leg("dkg","plain",100000,16,32,600,900), leg("dkg","asan",4000,10,8,900,400)],
  text="Two-party coin flip in both role assignments over a fragmenting stream pair: both parties must output the same coin, equal to the sum of the two opened shares read off the wire; the recorded history must show that no opening line was written before the peer's commitment line had been completely received; a relay that alters or drops any of the three lines of either direction, a peer that withholds its commitment (the honest party must never open), opens to another value, uses wrong randomness, sends value+q, commits outside the group or chooses its opening after seeing the honest one, and the library's own faulty switch must all lead to rejection. Multi-party flip (n=3..7 over the real reliable broadcast, up to t faulty parties): all honest parties must return the same coin.",
